@@ -33,6 +33,7 @@ SCHEMA = '''<xs:schema xmlns:xs="http://www.w3.org/2001/XMLSchema" elementFormDe
     %(avelem)s
     <xs:any namespace="##other" processContents="lax" minOccurs="0" maxOccurs="unbounded"/>
    </xs:sequence>
+   <xs:anyAttribute namespace="##other" processContents="lax"/>
    %(assert)s
   </xs:complexType>
   <xs:key name="K"><xs:selector xpath="item"/><xs:field xpath="@k"/></xs:key>
@@ -71,7 +72,9 @@ SCHEMA = '''<xs:schema xmlns:xs="http://www.w3.org/2001/XMLSchema" elementFormDe
   </xs:complexContent>
  </xs:complexType>
  <xs:simpleType name="Val"><xs:restriction base="xs:integer"><xs:maxInclusive value="10"/></xs:restriction></xs:simpleType>
- <xs:element name="gl" type="Item"/>
+ <xs:element name="gl" type="Item">
+  <xs:unique name="UG"><xs:selector xpath="."/><xs:field xpath="@k"/></xs:unique>
+ </xs:element>
  <xs:element name="sh" type="xs:string"/>
  <xs:element name="sm" type="xs:string" substitutionGroup="sh"/>
  %(avtype)s
@@ -109,6 +112,7 @@ DOCS = {
     'g1-dup': '<root %s><item k="1"/><s1><gl k="1" xsi:type="ItemExt"><sub n="1"/><sub n="01"/></gl></s1></root>' % XSI,
     'g2-dup': '<root %s><item k="1"/><s2><gl k="1" xsi:type="ItemExt"><sub n="1"/><sub n="01"/></gl></s2></root>' % XSI,
     'xlink-type': ('<root %s><item k="1"/><x:foo xmlns:x="http://www.w3.org/1999/xlink" xsi:type="x:typeType">simple</x:foo></root>' % XSI),
+    'xlink-attr': '<root xmlns:xl="http://www.w3.org/1999/xlink" xl:type="bogus"><item k="1"/></root>',
     'subst': '<root><item k="1"/><sh>x</sh><sm>y</sm></root>',
     'assert-lo': '<root><item k="1"/><av>5</av></root>',
     'assert-hi': '<root><item k="1"/><av>50</av></root>',
